@@ -12,14 +12,12 @@ Qed.
 
 Lemma op_eqb_eq : forall a b, op_eqb a b = true -> a = b.
 Proof.
-  induction a; destruct b; cbn; try discriminate; auto; intros H.
-  - apply andb_prop in H as [H1 H2]. f_equal; auto.
-  - f_equal; lia.
-  - f_equal. now apply Nat.eqb_eq.
-  - f_equal; auto.
-  - f_equal; auto.
-  - f_equal. now apply zlist_eqb_eq.
-  - f_equal; lia.
+  induction a; destruct b; cbn; try discriminate; auto; intros H;
+    try (apply andb_prop in H as [H1 H2]; f_equal; auto; fail);
+    try (f_equal; auto; fail);
+    try (f_equal; lia);
+    try (f_equal; now apply Nat.eqb_eq);
+    try (f_equal; now apply zlist_eqb_eq).
 Qed.
 
 Lemma unpack_pack : forall l, unpack (length l) (pack l) = l.
@@ -40,15 +38,17 @@ Ltac dbind H :=
 Section Proofs.
   Variable obj_write : Z -> list value -> option bytes.
   Variable obj_read : Z -> bytes -> option (list value * bytes).
-  Variable ext_write : Z -> list Z -> option bytes.
-  Variable ext_read : Z -> bytes -> option (list Z * bytes).
+  Variable ext_write : Z -> list value -> option bytes.
+  Variable ext_read : Z -> bytes -> option (list value * bytes).
+  Variable obj_fits : Z -> list value -> bool.
   Hypothesis obj_ok : forall t fs bs rest,
-    obj_write t fs = Some bs -> obj_read t (bs ++ rest) = Some (fs, rest).
+    obj_write t fs = Some bs -> obj_fits t fs = true -> obj_read t (bs ++ rest) = Some (fs, rest).
   Hypothesis ext_ok : forall k p bs rest,
     ext_write k p = Some bs -> ext_read k (bs ++ rest) = Some (p, rest).
 
   Notation write_op := (write_op obj_write ext_write).
   Notation read_op := (read_op obj_read ext_read).
+  Notation fits := (fits obj_fits).
 
   Lemma write_erase : forall r vs, write_op (erase r) vs = write_op r vs.
   Proof.
@@ -56,6 +56,7 @@ Section Proofs.
     - rewrite IHr1. destruct (write_op r1 vs) as [[x vs1]|]; cbn [bind]; [|reflexivity].
       now rewrite IHr2.
     - destruct vs as [|[] r0]; try reflexivity. now rewrite IHr.
+    - destruct vs as [|[] r0]; try reflexivity; [now rewrite IHr1|now rewrite IHr2].
     - destruct vs as [|[] r0]; try reflexivity.
       destruct (write_int (zlen rows)); cbn [bind]; [|reflexivity].
       f_equal. induction rows as [|row rs IHrows]; [reflexivity|].
@@ -69,7 +70,7 @@ Section Proofs.
   Proof.
     induction o; intros vs bs vs' vr HL HW HF; cbn [leads] in HL; try discriminate.
     - cbn [Schema.write_op] in HW. dbind HW. destruct p as [x vs1]. dbind HW. destruct p as [y vs2].
-      inversion HW; subst. cbn [fits] in HF. destruct (fits o1 vs) eqn:F1; [|discriminate].
+      inversion HW; subst. cbn [Schema.fits] in HF. destruct (fits o1 vs) eqn:F1; [|discriminate].
       destruct (IHo1 _ _ _ _ HL E F1) as (b & r & -> & Hb). exists b, (r ++ y). split; [reflexivity|exact Hb].
     - cbn [Schema.write_op] in HW. unfold write_tag in HW.
       destruct ((0 <=? t) && (t <=? 255)); [|discriminate]. cbn [bind] in HW. inversion HW; subst.
@@ -79,7 +80,7 @@ Section Proofs.
     - cbn [Schema.write_op] in HW. destruct vs as [|[] r0]; try discriminate.
       destruct (_ && _); [|discriminate]. dbind HW. inversion HW; subst.
       eexists; eexists; split; [reflexivity|]. unfold LITERAL_INT, LITERAL_NONE. lia.
-    - cbn [Schema.write_op fits] in *. destruct vs as [|[] r0]; try discriminate.
+    - cbn [Schema.write_op Schema.fits] in *. destruct vs as [|[] r0]; try discriminate.
       destruct (zmem tag tags) eqn:M; [|discriminate].
       dbind HW. inversion HW; subst. unfold write_obj in E. dbind E. dbind E. inversion E; subst.
       unfold write_tag in E0. destruct (_ && _); [|discriminate]. inversion E0; subst.
@@ -91,7 +92,7 @@ Section Proofs.
     wf o = true -> write_op o vs = Some (bs, vs') -> fits o vs = Some vr ->
     exists used, vs = used ++ vs' /\ vr = vs' /\ forall rest, read_op o (bs ++ rest) = Some (used, rest).
   Proof.
-    induction o; intros vs bs vs' vr HWF HW HF; cbn [Schema.write_op fits wf] in *.
+    induction o; intros vs bs vs' vr HWF HW HF; cbn [Schema.write_op Schema.fits wf] in *.
     - (* Skip *) inversion HW; inversion HF; subst. exists []. repeat split; auto.
     - (* Seq *) apply andb_prop in HWF as [W1 W2].
       dbind HW. destruct p as [x vs1]. dbind HW. destruct p as [y vs2]. inversion HW; subst.
@@ -133,6 +134,20 @@ Section Proofs.
         exists [VSome fields]. repeat split; auto. intros rest. cbn [Schema.read_op app].
         replace (b =? LITERAL_NONE) with false by lia.
         change (b :: r ++ rest) with ((b :: r) ++ rest). now rewrite R.
+    - (* OptElse *) apply andb_prop in HWF as [W12 W3]. apply andb_prop in W12 as [W1 W2].
+      destruct vs as [|[] r0]; try discriminate.
+      + destruct (write_op o1 fields) as [[x [|]]|] eqn:E; try discriminate. inversion HW; subst.
+        destruct (fits o1 fields) eqn:F; [|discriminate]. inversion HF; subst.
+        destruct (IHo1 _ _ _ _ W1 E F) as (u & Hu & -> & R). rewrite app_nil_r in Hu. subst u.
+        destruct (leads_ok _ _ _ _ _ W2 E F) as (b & r & -> & Hb).
+        exists [VSome fields]. repeat split; auto. intros rest. cbn [Schema.read_op app].
+        replace (b =? LITERAL_NONE) with false by lia.
+        change (b :: r ++ rest) with ((b :: r) ++ rest). now rewrite R.
+      + destruct (write_op o2 fields) as [[y [|]]|] eqn:E; try discriminate. inversion HW; subst.
+        destruct (fits o2 fields) eqn:F; [|discriminate]. inversion HF; subst.
+        destruct (IHo2 _ _ _ _ W3 E F) as (u & Hu & -> & R). rewrite app_nil_r in Hu. subst u.
+        exists [VElse fields]. repeat split; auto. intros rest. cbn [Schema.read_op app].
+        rewrite Z.eqb_refl. now rewrite R.
     - (* Rep *) destruct vs as [|[] r0]; try discriminate.
       dbind HW. dbind HW. inversion HW; subst. clear HW.
       match type of HF with (if ?c then _ else _) = _ => destruct c eqn:F; [|discriminate] end.
@@ -152,11 +167,12 @@ Section Proofs.
       now rewrite R.
     - (* Dyn *) discriminate.
     - (* Nested *) destruct vs as [|v r0]; try discriminate. destruct v; try discriminate.
-      destruct (zmem tag tags) eqn:M; [|discriminate].
+      destruct (zmem tag tags) eqn:M; [|discriminate]. destruct (obj_fits tag fields) eqn:OF; [|discriminate].
+      cbn [andb] in HF.
       dbind HW. inversion HW; inversion HF; subst. unfold write_obj in E. dbind E. dbind E. inversion E; subst.
       exists [VObj tag fields]. repeat split; auto. intros rest. cbn [Schema.read_op].
       rewrite <- app_assoc, (read_write_tag _ _ _ E0). cbn [bind]. rewrite M.
-      now rewrite (obj_ok _ _ _ _ E1).
+      now rewrite (obj_ok _ _ _ _ E1 OF).
     - (* Ext *) destruct vs as [|[] r0]; try discriminate.
       destruct (k0 =? k) eqn:K; [|discriminate]. dbind HW. inversion HW; inversion HF; subst.
       assert (k0 = k) by lia. subst k0.
